@@ -73,8 +73,27 @@ def parseCs (w : String) : Option (List (String × CsSpec)) :=
       | _ => none
     | _ => none
 
+/-- `pages <rot> <x0> <y0> <x1> <y1> <cs> <tokens of page 1> | <tokens of page 2> | ...`: all pages through ONE
+interpreter (`runPagesFrom`), results joined by ` || `. -/
+def splitPages (ws : List String) : List (List String) :=
+  ws.foldr (fun w acc => if w == "|" then [] :: acc else match acc with
+    | cur :: rest => (w :: cur) :: rest
+    | [] => [[w]]) [[]]
+
+def handlePages (rot x0 y0 x1 y1 cs : String) (toks : List String) : String :=
+  match rot.toInt?, [x0, y0, x1, y1].mapM ratOfString, parseCs cs, (splitPages toks).mapM (fun p => p.mapM parseTok) with
+  | some rot, some [x0, y0, x1, y1], some res, some pages =>
+    let ins : List PageIn := pages.map (fun t => ⟨rot, (x0, y0, x1, y1), res, t⟩)
+    let outs := runPagesFrom (initState (1, 0, 0, 1, 0, 0) []) ins
+    " || ".intercalate (outs.map fun r => match r with
+      | .ok shapes => showPage shapes
+      | .error .typeError => "EXC:TypeError"
+      | .error .indexError => "EXC:IndexError")
+  | _, _, _, _ => "bad-op"
+
 def handle (line : String) : String :=
   match words line with
+  | "pages" :: rot :: x0 :: y0 :: x1 :: y1 :: cs :: toks => handlePages rot x0 y0 x1 y1 cs toks
   | which :: rot :: x0 :: y0 :: x1 :: y1 :: cs :: toks =>
     match rot.toInt?, [x0, y0, x1, y1].mapM ratOfString, parseCs cs, toks.mapM parseTok with
     | some rot, some [x0, y0, x1, y1], some res, some toks =>
